@@ -7,3 +7,99 @@ try:
     REPLAYERS.update(getattr(_ring, "REPLAYERS", {}))
 except ImportError:
     _ring = None
+
+import numpy, z3
+from pyvc import sym, barr, modeb, lemma
+from pyvc.sym import cur, _t, ite
+from pyvc.lemma import real
+
+GMOD = "pybrops/model/gmod/DenseAdditiveLinearGenomicModel.py"
+
+
+def _model(p, t, q=1):
+    from pybrops.model.gmod.DenseAdditiveLinearGenomicModel import DenseAdditiveLinearGenomicModel
+    beta = barr.fresh("beta", (q, t), "float64")
+    u_a = barr.fresh("u", (p, t), "float64")
+    trait = numpy.array(["t%d" % i for i in range(t)], dtype=object)
+    return DenseAdditiveLinearGenomicModel(beta=beta, u_misc=None, u_a=u_a, trait=trait), beta, u_a
+
+
+R = lambda x: (z3.ToReal(_t(x)) if _t(x).sort() == z3.IntSort() else _t(x))
+
+
+@unit(P, "B[usl/lsl == definition; limits bracket every individual; equal when fixed]", "B", bounded=True,
+      targets=[GMOD + ":DenseAdditiveLinearGenomicModel.usl_numpy", GMOD + ":DenseAdditiveLinearGenomicModel.lsl_numpy"],
+      note="bounded(shape): ntaxa<=3, nvrnt<=2, ntrait<=2; genotypes 0..2, effects and intercepts symbolic reals")
+def u_b_limits(ctx):
+    def body(e, shape, tag):
+        from pybrops.popgen.gmat.DenseGenotypeMatrix import DenseGenotypeMatrix
+        n, p, t = shape
+        ploidy = 2
+        mat = barr.fresh("g", (n, p), "int8", 0, 2)
+        gm = DenseGenotypeMatrix(mat=mat, ploidy=ploidy)
+        model, beta, u = _model(p, t)
+        usl, lsl = model.usl(gm), model.lsl(gm)
+        cnt = [sum((mat[i, j] for i in range(n)), 0) for j in range(p)]
+        tot = ploidy * n
+        for k in range(t):
+            up = z3.RealVal(0)
+            lo = z3.RealVal(0)
+            for j in range(p):
+                uj = R(u[j, k])
+                present, fixed = _t(cnt[j]) > 0, _t(cnt[j]) == tot       # allele 1 available / allele 0 lost
+                up = up + ploidy * uj * z3.If(z3.If(uj > 0, present, fixed), 1, 0)
+                lo = lo + ploidy * uj * z3.If(z3.If(uj > 0, fixed, present), 1, 0)
+            e.prove(tag + ":usl==ploidy*sum(u*indicator)[trait %d]" % k, R(usl[k]) == up)
+            e.prove(tag + ":lsl==ploidy*sum(u*indicator)[trait %d]" % k, R(lsl[k]) == lo)
+        gebv = model.gebv_numpy(mat)
+        for i in range(n):
+            for k in range(t):
+                e.prove(tag + ":lsl<=gebv[%d,%d]<=usl" % (i, k), z3.And(R(lsl[k]) <= R(gebv[i, k]), R(gebv[i, k]) <= R(usl[k])))
+        allfixed = z3.And(*[z3.Or(_t(cnt[j]) == 0, _t(cnt[j]) == tot) for j in range(p)])
+        saved = list(e.assumptions)
+        e.assume(allfixed)
+        for k in range(t):
+            e.prove(tag + ":fixed-population:usl==lsl==common-value[trait %d]" % k,
+                    z3.And(R(usl[k]) == R(lsl[k]), *[R(gebv[i, k]) == R(usl[k]) for i in range(n)]))
+        e.assumptions[:] = saved
+        # raw array input gives the same limits; unscale adds the intercept contrast to both
+        e.prove(tag + ":raw-array-input-agrees", z3.And(modeb.eq(model.usl(mat, ploidy), usl), modeb.eq(model.lsl(mat, ploidy), lsl)))
+        uu, ll = model.usl(gm, unscale=True), model.lsl(gm, unscale=True)
+        e.prove(tag + ":unscale-adds-intercept", z3.And(*[z3.And(R(uu[k]) == R(usl[k]) + R(beta[0, k]), R(ll[k]) == R(lsl[k]) + R(beta[0, k]))
+                                                      for k in range(t)]))
+        e.prove(tag + ":canary:usl<=lsl", z3.And(*[R(usl[k]) <= R(lsl[k]) for k in range(t)]), expect="fail", timeout_ms=2000)
+        return "ok"
+    shapes = [(1, 1, 1), (2, 1, 2), (2, 2, 1), (3, 2, 1)] + ([(3, 2, 2), (2, 3, 1)] if ctx.tier == "thorough" else [])
+    modeb.run_shapes(ctx, "limits", shapes, body)
+
+
+@unit(P, "L[per-locus bracket and tightening lemmas; meiosis/selection cannot regenerate a lost allele]", "L", targets=[])
+def u_l_lemmas(ctx):
+    ctx.trust("sum of per-locus inequalities (monotonicity of finite sums)")
+    u, p, p2 = z3.Real("u"), z3.Real("p"), z3.Real("p2")
+    d, pl = z3.Int("d"), z3.Int("ploidy")
+    up = lambda pp: pl * u * z3.If(z3.If(u > 0, pp > 0, pp >= 1), 1, 0)
+    lo = lambda pp: pl * u * z3.If(z3.If(u > 0, pp >= 1, pp > 0), 1, 0)
+    pre = [pl >= 1, 0 <= d, d <= pl, 0 <= p, p <= 1, z3.Implies(d > 0, p > 0), z3.Implies(d < pl, p < 1)]
+    ctx.prove("bracket:per-locus ploidy*u*I_low <= u*d <= ploidy*u*I_up", pre, z3.And(lo(p) <= u * d, u * d <= up(p)))
+    # closed history: availability only shrinks:  p == 0 stays 0, p == 1 stays 1
+    hist = [pl >= 1, 0 <= p, p <= 1, 0 <= p2, p2 <= 1, z3.Implies(p == 0, p2 == 0), z3.Implies(p == 1, p2 == 1)]
+    ctx.prove("tighten:upper-term-never-increases", hist, up(p2) <= up(p))
+    ctx.prove("tighten:lower-term-never-decreases", hist, lo(p2) >= lo(p))
+    ctx.prove("canary:upper-term-never-decreases", hist, up(p2) >= up(p), expect="fail", timeout_ms=3000)
+    # closure under mating: from the meiosis contract gamete[r,j] == geno[ph(r,j), sel[r], j] with ph in {0,1}:
+    # if every parental copy carries allele a at locus j, so does every gamete (hence every progeny copy)
+    G = z3.Function("geno", z3.IntSort(), z3.IntSort(), z3.IntSort(), z3.IntSort())
+    ph = z3.Function("ph", z3.IntSort(), z3.IntSort(), z3.IntSort())
+    sel = z3.Function("sel", z3.IntSort(), z3.IntSort())
+    r, j, a, m, tt, T = z3.Ints("r j a m tt T")
+    gam = G(ph(r, j), sel(r), j)
+    fixed_j = z3.ForAll([m, tt], z3.Implies(z3.And(0 <= m, m <= 1, 0 <= tt, tt < T), G(m, tt, j) == a))
+    ctx.prove("closure:meiosis-contract-preserves-fixation-at-a-locus",
+              [z3.Or(ph(r, j) == 0, ph(r, j) == 1), 0 <= sel(r), sel(r) < T, fixed_j], gam == a)
+    # closure under selection: select_taxa is TAKE along the taxa axis (C03): row k of the result is row idx[k] of the input
+    idx = z3.Function("idx", z3.IntSort(), z3.IntSort())
+    k = z3.Int("k")
+    ctx.prove("closure:selection-(take)-preserves-fixation-at-a-locus",
+              [0 <= idx(k), idx(k) < T, 0 <= m, m <= 1, fixed_j], G(m, idx(k), j) == a)
+    ctx.assume_note("closure lemmas use the meiosis contract proved under C01 and the TAKE position map of C03")
